@@ -46,6 +46,9 @@ type c18Obs struct {
 
 type c18Panic struct{ i int }
 
+var c18Commands = []string{CommandConnect, CommandMetrics, CommandPreconnect, CommandTxnEvents, CommandErrors, CommandConnect,
+	CommandCustomEvents, CommandSpanEvents, CommandLogEvents, CommandTraces, CommandSlowSQLs, CommandErrorEvents, CommandPhpPackages}
+
 type c18Run struct {
 	mu          sync.Mutex
 	sc          c18Scenario
@@ -65,7 +68,7 @@ type c18Run struct {
 }
 
 func (r *c18Run) inner(cmd *RpmCmd, cs RpmControls) RPMResponse {
-	i, _ := strconv.Atoi(cmd.Name)
+	i, _ := strconv.Atoi(cmd.RunID) // the request's index travels in the run id; the command name is a real one
 	r.mu.Lock()
 	r.started[i]++
 	r.startedTot++
@@ -87,7 +90,7 @@ func (r *c18Run) inner(cmd *RpmCmd, cs RpmControls) RPMResponse {
 	if r.sc.Panics[i] {
 		panic(c18Panic{i})
 	}
-	return RPMResponse{StatusCode: 200, Body: []byte("ok-" + cmd.Name)}
+	return RPMResponse{StatusCode: 200, Body: []byte("ok-" + cmd.RunID)}
 }
 
 func (r *c18Run) caller(c Client, i int) {
@@ -100,7 +103,9 @@ func (r *c18Run) caller(c Client, i int) {
 	returned := false
 	func() {
 		defer func() { pv = recover() }()
-		resp = c.Execute(&RpmCmd{Name: strconv.Itoa(i)}, RpmControls{})
+		// every collector command goes through the limiter: cycle through all of them (a limiter that lets one kind
+		// of command bypass it -- seeded/C18f1 -- shows as more than max running)
+		resp = c.Execute(&RpmCmd{Name: c18Commands[i%len(c18Commands)], RunID: strconv.Itoa(i)}, RpmControls{})
 		returned = true
 	}()
 	r.mu.Lock()
